@@ -17,7 +17,10 @@ from .engine import (PyLong, STupleSeq, HRefTable, Engine, ReturnEx, BreakEx, Co
 
 def exc_matches(exc_type, handler_type):
     if isinstance(handler_type, tuple):
-        return any(exc_matches(exc_type, h) for h in handler_type)
+        rs = [exc_matches(exc_type, h) for h in handler_type]
+        if any(r is True for r in rs):
+            return True
+        return None if any(r is None for r in rs) else False
     if exc_type is AnyExc:
         # an exception of unknown class (below Exception): caught for sure only by Exception / BaseException
         if handler_type in (Exception, BaseException):
@@ -27,7 +30,7 @@ def exc_matches(exc_type, handler_type):
         except TypeError:
             narrower = False
         if narrower:
-            raise Unsupported("a handler for %s may or may not catch an exception of unknown class" % getattr(handler_type, "__name__", handler_type))
+            return None          # may or may not be caught: the caller forks
         return False
     try:
         return issubclass(exc_type, handler_type)
@@ -449,7 +452,11 @@ class Interp(Engine):
             except PyRaise as pr:
                 for h in s.handlers:
                     ht = self.eval(h.type, f) if h.type is not None else BaseException
-                    if exc_matches(pr.exc_type, ht):
+                    hit = exc_matches(pr.exc_type, ht)
+                    if hit is None:
+                        # an exception of unknown class against a handler narrower than Exception: both outcomes are explored
+                        hit = self.decide(self.fresh_bool("caught_by_line_%d" % h.lineno).e)
+                    if hit:
                         if h.name:
                             f.vars[h.name] = Opaque("exception")
                         old = getattr(f, "cur_exc", None)
